@@ -28,8 +28,53 @@ OPT = 'rten::optimize::GraphOptimizer::optimize'
 MUT = 'rten::optimize::GraphMutator'
 
 
+def captured_preserved(ctx, fb):
+    """a fusion must not remove a value that an If / Loop subgraph captures by name (replace_value rewires operator inputs
+    and graph outputs of the current graph only, never captures).  find_operator_output_captured_by_subgraph treats only
+    the outputs of Fusion::Op as still produced after the fusion: anything it reads from the fusion to build that set is
+    read under a `Fusion::Op` test alone (Identity and Constant fusions delete their producers)."""
+    R = 'C01.fusion-guards'
+    f = fb.fn('rten::optimize::find_operator_output_captured_by_subgraph')
+    if not ctx.anchor(R, 'find_operator_output_captured_by_subgraph', f is not None and f.has_mir()):
+        return
+    # the fusion is parameter 4 (graph, captured_values, unfused_ops, fusion)
+    fpar = [i for i in range(1, f.argc + 1) if 'Fusion' in f.local_ty(i)]
+    if not ctx.anchor(R, 'fusion parameter', len(fpar) == 1):
+        return
+    fp = fpar[0]
+    bad, nread = [], 0
+    def variants_at(bb):
+        vs = None
+        for g in f.guards(bb):
+            gv = guard_variants(g, fb)
+            if gv and gv[1] is not None and str(gv[0]).endswith('Fusion'):
+                vs = set(gv[1]) if vs is None else vs & set(gv[1])
+        return vs
+    for i, b in enumerate(f.bbs):
+        if b.get('c') or i not in f.live():
+            continue
+        reads = []
+        for st in b['s']:
+            if st[0] == '=' and st[2][0] in ('use', 'ref', 'raw'):
+                pl = op_place(st[2][1]) if st[2][0] == 'use' else st[2][2]
+                if pl and pl[0] == fp and any(isinstance(e, list) and e[0] == 'f' for e in pl[1:]):
+                    reads.append('field read')
+        t = b['t']
+        if t[0] == 'call' and any(op_local(a) == fp or any(o[0] == 'param' and o[1] == fp - 1 for o in f.origins(a)) for a in t[2]) and 'Fusion' in str(t[1].get('d', '')):
+            reads.append('call ' + str(t[1].get('d', '')).split('::')[-1])
+        for r in reads:
+            nread += 1
+            vs = variants_at(i)
+            if vs != {'Op'}:
+                bad.append('%s under %s' % (r, sorted(vs) if vs else 'no variant test'))
+    ctx.inst(R, 'captured-output-preserved-only-by-op-fusion', not bad and nread >= 1,
+             'outputs are treated as still produced only for Fusion::Op (%d read(s) of the fusion, all under a Fusion::Op test)' % nread if not bad and nread else
+             'the set of outputs considered preserved is read from the fusion %s: a Constant / Identity fusion deletes the producers of a value that a subgraph captures by name, so the optimized model fails with a missing input where the original runs' % ('; '.join(bad) or '(no read found)'), f.loc())
+
+
 def run(ctx):
     fb = ctx.fb()
+    captured_preserved(ctx, fb)
     out_ids(ctx, fb)
     fusion_guards(ctx, fb)
     identity_output(ctx, fb)
